@@ -312,6 +312,50 @@ class Verifier:
             c.ghost(eng, names)
         self.check_outcome(eng, fi, c, names, old, outcome, frm)
 
+    def check_nondet(self, eng, c, names, tag):
+        """C10: a value that is not a function of program state (wall clock, unseeded generator) may only flow into the
+        declared sinks (the *-algtime columns)"""
+        nd = eng.st.ghost.get('_nondet', [])
+        if not nd:
+            return
+        ndnames = {t.decl().name(): what for t, what in nd}
+        sinks = getattr(self.spec, 'nondet_sinks', set())
+
+        def occurs(term):
+            todo, seen = [term], set()
+            while todo:
+                x = todo.pop()
+                if x.get_id() in seen:
+                    continue
+                seen.add(x.get_id())
+                if z3.is_const(x) and x.decl().kind() == z3.Z3_OP_UNINTERPRETED and x.decl().name() in ndnames:
+                    return ndnames[x.decl().name()]
+                if z3.is_quantifier(x):
+                    todo.append(x.body())
+                elif z3.is_app(x):
+                    todo.extend(x.children())
+            return None
+        leaves, _ = walk_leaves(names)
+        for path, v in leaves.items():
+            if any(path.endswith(sk) or ('.' + sk + '.') in path for sk in sinks):
+                continue
+            terms = []
+            if isinstance(v, Sym):
+                terms = [v.t]
+            elif isinstance(v, ListObj):
+                terms = [v.cnt, v.n]
+            elif isinstance(v, DictObj):
+                terms = [t for t in (v.keys, v.nk, v.vals, v.vcnt, v.vn) if t is not None]
+            for t in terms:
+                w = occurs(t)
+                if w:
+                    eng.oblige(f"det:{c.qual}:C10-nondeterministic-value-reaches-{path}", 'det', False)
+                    break
+        for k, arr in eng.st.heap.items():
+            w = occurs(arr)
+            if w:
+                eng.oblige(f"det:{c.qual}:C10-nondeterministic-value-reaches-{k[0]}.{k[1]}", 'det', False)
+
     def check_spawns(self, eng, q, tag):
         """S3: a spawned process starts right after the spawning segment; its entry precondition must hold in the state
         the segment leaves behind (interference between sibling spawns is not modelled: see DESIGN 7.3)"""
@@ -338,6 +382,7 @@ class Verifier:
         st = eng.st
         q = c.qual
         if outcome[0] in ('yield', 'return'):
+            self.check_nondet(eng, c, names, f"seg{frm}")
             self.check_spawns(eng, q, f"seg{frm}" if frm is not None else 'call')
             if frm is None or frm == -1:
                 # a declared raise condition is exact: when it holds on entry the call must not complete normally
